@@ -61,7 +61,17 @@ fn fen_line(input: &str) -> IResult<&str, FenRank> {
         fen_empty_squares,
     )))(input)?;
 
-    Ok((input, FenRank(squares.concat())))
+    let squares = squares.concat();
+
+    // Every rank has to describe exactly eight squares
+    if squares.len() != File::N {
+        return Err(nom::Err::Error(nom::error::Error::new(
+            input,
+            nom::error::ErrorKind::Verify,
+        )));
+    }
+
+    Ok((input, FenRank(squares)))
 }
 
 fn fen_position(input: &str) -> IResult<&str, Board> {
